@@ -676,10 +676,11 @@ func stringJoinFunc(q, arg1 query) func(query, iterator) interface{} {
 			}
 		}
 
-		q = functionArgs(q)
-		test := predicate(q)
+		// Work on a copy: q is captured by the closure and shared by every call.
+		input := functionArgs(q)
+		test := predicate(input)
 		var parts []string
-		switch v := q.Evaluate(t).(type) {
+		switch v := input.Evaluate(t).(type) {
 		case string:
 			return v
 		case query:
